@@ -111,7 +111,7 @@ def run(c):
     c.samples = samples
     need = ["matched", "big", "withLast", "poolMatched", "multiFill", "partial", "mixedAges", "kmatch", "kfull", "ranged",
             "kfullIdsDistinct", "kfullSecondPair", "kfullPoolIdNePairId", "foreignOrderAttempts"]
-    if any(stats.get(k, 0) == 0 for k in need):
+    if not c.violations and any(stats.get(k, 0) == 0 for k in need):   # a violation on real-code states is a verdict whatever the coverage
         raise vlib.NoVerdict("vacuous run: %s" % stats)
     return c.finish("model_checking", dict(
         states=gen_states, transitions=gen_trans, traces_validated_against_impl=tot["nodes"],
